@@ -168,14 +168,18 @@ class SModel(KModel):
                 k.d['t'].generic = []
             return Unit()
         if lib.is_role(name, 'CubicSpline::solve_for_k') and self.scn.get('summarise_solve', False):
-            self.solve_calls.append({'args': [deref_all(a) for a in args], 'where': line_of(e)})
-            k = deref_all(args[0])
+            from .props.spline import canon_entry_call
+            cargs = canon_entry_call(lib, 'CubicSpline::solve_for_k', args)
+            self.solve_calls.append({'args': cargs, 'where': line_of(e)})
+            k = cargs[0]
             if isinstance(k, Obj) and k.kind == 'arr2':
                 k.d['t'].sym = 'k'
             return OK(Unit()) if self.scn.get('solve', 'ok') == 'ok' else self._err()
         if lib.is_role(name, 'CubicSpline::solve_for_k_individual') and self.scn.get('summarise_solve', False):
-            self.individual_calls.append({'args': [deref_all(a) for a in args], 'where': line_of(e)})
-            k = deref_all(args[0])
+            from .props.spline import canon_entry_call
+            cargs = canon_entry_call(lib, 'CubicSpline::solve_for_k_individual', args)
+            self.individual_calls.append({'args': cargs, 'where': line_of(e)})
+            k = cargs[0]
             if isinstance(k, Obj) and k.kind == 'arr2':
                 k.d['t'].sym = 'k'
             return OK(Unit()) if self.scn.get('solve', 'ok') == 'ok' else self._err()
@@ -220,10 +224,31 @@ class SModel(KModel):
             if isinstance(v, Obj) and v.kind == 'arr1':
                 return Obj('rowiter', tree=('elems', v))       # `&array1` / `array1.iter()` as an IntoIterator operand of zip
             return None
-        if name == 'std::iter::Iterator::zip' and as_rowiter(a0) is not None:
-            b = as_rowiter(args[1])
-            if b is not None:
-                return Obj('rowiter', tree=('zip', as_rowiter(a0).d['tree'], b.d['tree']))
+        def as_range_leaf(v):
+            v = deref_all(v)
+            if isinstance(v, Enum) and v.adt == 'std::ops::Range' and isinstance(deref_all(v.fields['start']), Num) and isinstance(deref_all(v.fields['end']), Num):
+                return Obj('rowiter', tree=('range', deref_all(v.fields['start']).r, deref_all(v.fields['end']).r))
+            return None
+        if name == 'std::iter::Iterator::zip' and (as_rowiter(a0) is not None or as_rowiter(args[1]) is not None):
+            # an index range zipped with row iterators counts the positions
+            a_ = as_rowiter(a0) or as_range_leaf(a0)
+            b = as_rowiter(args[1]) or as_range_leaf(args[1])
+            if a_ is not None and b is not None:
+                ta, tb = a_.d['tree'], b.d['tree']
+                # operands reversed one by one (each possibly shortened by the same skip): for operands of equal length this is the
+                # reversal of their zip
+                ka = kb = 0
+                ia, ib = ta, tb
+                if ia[0] == 'skip' and ia[1][0] == 'rev':
+                    ka, ia = ia[2], ia[1]
+                if ib[0] == 'skip' and ib[1][0] == 'rev':
+                    kb, ib = ib[2], ib[1]
+                if ia[0] == 'rev' and ib[0] == 'rev' and ka == kb:
+                    la, lb = self._tree_len(ia[1], e), self._tree_len(ib[1], e)
+                    if (la - lb).is_zero():
+                        z = ('rev', ('zip', ia[1], ib[1]))
+                        return Obj('rowiter', tree=('skip', z, ka) if ka else z)
+                return Obj('rowiter', tree=('zip', ta, tb))
         if name == 'std::iter::Iterator::enumerate' and as_rowiter(a0) is not None:
             return Obj('rowiter', tree=('enum', as_rowiter(a0).d['tree']))
         if name in ('std::iter::Iterator::rev', 'std::iter::DoubleEndedIterator::rev') and isinstance(a0, Obj) and a0.kind == 'rowiter':
@@ -388,7 +413,7 @@ class SModel(KModel):
             return Obj('arr1', t=t2, lo=a.d['lo'], hi=a.d['hi'])
         if last == 'len':
             return Num(a.d['hi'] - a.d['lo'])
-        if last == 'iter':
+        if last in ('iter', 'iter_mut'):
             return Obj('rowiter', tree=('elems', a))
         raise Unsupported("ndarray call `%s` on a 1-D coefficient array is not part of the reviewed solver surface" % last, e)
 
@@ -650,6 +675,9 @@ class SModel(KModel):
             return Obj('window', axis=tree[1], i=j + off, size=tree[2])
         if kind == 'skip':
             return self._rowiter_elem(tree[1], j, lens, e, off + tree[2])
+        if kind == 'range':
+            lens.append(tree[2] - tree[1] - off)
+            return Num(tree[1] + j + off)
         if kind == 'take':
             lens.append(tree[2] - off)          # the first `count` positions of the inner iterator (skips outside it already counted)
             return self._rowiter_elem(tree[1], j, lens, e, off)
@@ -661,6 +689,27 @@ class SModel(KModel):
             a = tree[1]
             lens.append(a.d['hi'] - a.d['lo'] - off)
             return Ref(self.arr1_place(a, Num(j + off), e))
+        raise Unsupported("iterator adaptor %r" % (kind,), e)
+
+    def _tree_len(self, tree, e, off=0):
+        """number of elements the iterator described by `tree` yields (no element is produced)"""
+        kind = tree[0]
+        if kind in ('rows', 'elems'):
+            return tree[1].d['hi'] - tree[1].d['lo'] - off
+        if kind == 'datarows':
+            return self.n - off
+        if kind == 'win':
+            return self.len_of_axis() - tree[2] + 1 - off
+        if kind == 'range':
+            return tree[2] - tree[1] - off
+        if kind == 'skip':
+            return self._tree_len(tree[1], e, off + tree[2])
+        if kind == 'take':
+            return self._shortest([tree[2] - off, self._tree_len(tree[1], e, off)], e)
+        if kind in ('enum', 'rev'):
+            return self._tree_len(tree[1], e, off)
+        if kind == 'zip':
+            return self._shortest([self._tree_len(tree[1], e, off), self._tree_len(tree[2], e, off)], e)
         raise Unsupported("iterator adaptor %r" % (kind,), e)
 
     @classmethod
